@@ -140,9 +140,33 @@ def op (j : Json) : R Json := do
   | some r => r
   | none => .error s!"c15: unknown function {fn} for carrier {num}"
 
+def parseView (j : Json) : R View := do
+  let shape ← jNatArr (← fld j "shape")
+  let addr ← jNatArr (← fld j "addr")
+  return ⟨shape.toList, addr.toList⟩
+
+/-- `scalarMultMem` on a finite memory given as the list of its cells -/
+def memOp {α : Type} [Add α] [Mul α] [Neg α] [Sub α] [Zero α] [One α] (c : Codec α) (j : Json) : R Json := do
+  let cells ← (← jArr (← fld j "mem")).mapM c.dec
+  let x ← parseView (← fld j "x")
+  let y ← parseView (← fld j "y")
+  let o ← parseView (← fld j "out")
+  let m : Nat → α := fun i => cells.getD i 0
+  match scalarMultMem m x y o with
+  | .ok (m2, t) =>
+    return Json.mkObj [("shape", .arr (t.shape.toArray.map nOut)), ("data", .arr (t.data.toArray.map c.enc)),
+      ("mem", .arr ((Array.range cells.size).map (fun i => c.enc (m2 i))))]
+  | .error e => return errOut e
+
+/-- op `c15.mem`: `{num, mem: [cells], x, y, out: {shape, addr}}` → `{shape, data, mem}` or `{error}` -/
+def mem (j : Json) : R Json := do
+  let num ← jStr (← fld j "num")
+  if num == "int" then memOp intCodec j else memOp floatCodec j
+
 def handle (opname : String) (j : Json) : Option (R Json) :=
   match opname with
   | "c15.op" => some (op j)
+  | "c15.mem" => some (mem j)
   | _ => none
 
 end Drv.C15
